@@ -232,15 +232,32 @@ func newCbFixture(scr string) *cbFixture {
 	}}
 }
 
+func (f *cbFixture) setMode(mode string) {
+	if mode == "pow" {
+		f.node.Chain.GetState().ConsensusAlgorithm = state.POW
+	} else {
+		f.node.Chain.GetState().ConsensusAlgorithm = state.DPOS
+	}
+}
+
+// block: the coinbase plus one fee-carrying stub transaction per fee.
+func (f *cbFixture) block(h uint32, cb interfaces.Transaction, fees []int64) *types.Block {
+	txs := []interfaces.Transaction{cb}
+	for i, fee := range fees {
+		attr := common2.NewAttribute(common2.Nonce, []byte{byte(i)})
+		tx := transaction.CreateTransaction(common2.TxVersion09, common2.TransferAsset, 0, &payload.TransferAsset{},
+			[]*common2.Attribute{&attr}, nil, nil, 0, nil)
+		tx.SetFee(common.Fixed64(fee))
+		txs = append(txs, tx)
+	}
+	return &types.Block{Header: common2.Header{Height: h}, Transactions: txs}
+}
+
 func (f *cbFixture) eval(c cbCase) (res cbRes) {
 	res.Case = c
 	n := f.node
-	if c.Mode == "pow" {
-		n.Chain.GetState().ConsensusAlgorithm = state.POW
-	} else {
-		n.Chain.GetState().ConsensusAlgorithm = state.DPOS
-	}
-	defer func() { n.Chain.GetState().ConsensusAlgorithm = state.DPOS }()
+	f.setMode(c.Mode)
+	defer f.setMode("dpos")
 	var outs []*common2.Output
 	for i, a := range c.Amounts {
 		outs = append(outs, lightnode.Output(f.addrs[c.Addrs[i]], common.Fixed64(a)))
@@ -249,17 +266,11 @@ func (f *cbFixture) eval(c cbCase) (res cbRes) {
 		&payload.CoinBase{Content: []byte("c11")}, []*common2.Attribute{},
 		[]*common2.Input{{Previous: common2.OutPoint{TxID: common.EmptyHash, Index: 0xffff}, Sequence: 0xffffffff}},
 		outs, c.H, []*program.Program{})
-	txs := []interfaces.Transaction{cb}
 	total := common.Fixed64(0)
-	for i, fee := range c.Fees {
-		attr := common2.NewAttribute(common2.Nonce, []byte{byte(i)})
-		tx := transaction.CreateTransaction(common2.TxVersion09, common2.TransferAsset, 0, &payload.TransferAsset{},
-			[]*common2.Attribute{&attr}, nil, nil, 0, nil)
-		tx.SetFee(common.Fixed64(fee))
-		txs = append(txs, tx)
+	for _, fee := range c.Fees {
 		total += common.Fixed64(fee)
 	}
-	blk := &types.Block{Header: common2.Header{Height: c.H}, Transactions: txs}
+	blk := f.block(c.H, cb, c.Fees)
 	res.Subsidy = int64(n.Params.GetBlockReward(c.H))
 	func() {
 		defer func() {
@@ -371,7 +382,7 @@ func deviations() []deviation {
 	return ds
 }
 
-func cbCases(r *evid.Run, subsidyOf func(h uint32) int64) []cbCase {
+func cbMenu(r *evid.Run) ([]uint32, [][]int64) {
 	heights := []uint32{2000002, 2000003, 2102399, 2102400, 2102401, 3000000, 3153600, 4000000000}
 	fees := [][]int64{{}, {0}, {1}, {2}, {3}, {7}, {9}, {10}, {11}, {13}, {19}, {20}, {99}, {100}, {101}, {100000001}, {100000003}, {12345677}, {12345679},
 		{1, 1}, {100, 1}, {100000000, 1}, {50, 51, 7}}
@@ -380,6 +391,11 @@ func cbCases(r *evid.Run, subsidyOf func(h uint32) int64) []cbCase {
 			fees = append(fees, []int64{f})
 		}
 	}
+	return heights, fees
+}
+
+func cbCases(r *evid.Run, subsidyOf func(h uint32) int64) []cbCase {
+	heights, fees := cbMenu(r)
 	var out []cbCase
 	for _, h := range heights {
 		for _, mode := range []string{"dpos", "pow"} {
@@ -429,6 +445,7 @@ func judgeCb(r *evid.Run, x cbRes) {
 
 type cbOut struct {
 	Results []cbRes        `json:"results"`
+	Built   []builtRes     `json:"built"`
 	Classes map[string]int `json:"classes"`
 	N       int            `json:"n"`
 	Acc     int            `json:"accepted"`
@@ -450,7 +467,33 @@ func runCb(r *evid.Run, scr string) cbOut {
 			out.Results = append(out.Results, x)
 		}
 	}
+	hs, fs := cbMenu(r)
+	out.Built = f.runConstructed(hs, fs)
 	return out
+}
+
+func judgeBuilt(r *evid.Run, bs []builtRes, classes map[string]int) (n, acc int) {
+	for _, b := range bs {
+		n++
+		art := map[string]interface{}{"kind": "constructed", "case": b}
+		classes[fmt.Sprintf("constructed|%s|equals-reference=%v|accepted=%v", b.Mode, b.Differs == "", b.Accepted)]++
+		if b.Accepted {
+			acc++
+		}
+		if b.Differs != "" {
+			clause := b.Differs
+			if i := strings.Index(clause, ":"); i > 0 {
+				clause = clause[:i]
+			}
+			r.Violate("C11|coinbase|constructed-differs|"+clause+"|"+b.Mode,
+				fmt.Sprintf("the coinbase AssignCoinbaseTxRewards builds at height %d (%s mode, fees %v) is %v at %v: %s", b.H, b.Mode, b.Fees, b.Amounts, b.Addrs, b.Differs), art)
+		}
+		if !b.Accepted {
+			r.Violate("C11|coinbase|constructed-rejected|"+b.Mode,
+				fmt.Sprintf("the coinbase the node builds at height %d (%s mode, fees %v): %v at %v is refused by the coinbase rule: %s", b.H, b.Mode, b.Fees, b.Amounts, b.Addrs, b.Err), art)
+		}
+	}
+	return
 }
 
 func main() {
@@ -489,6 +532,12 @@ func main() {
 					sweep(r, n, lo, a.H, &schedStats{})
 				}
 			}
+		case "constructed":
+			f := newCbFixture(scr)
+			hs, fs := cbMenu(r)
+			bs := f.runConstructed(hs, fs)
+			judgeBuilt(r, bs, map[string]int{})
+			f.node.Close()
 		case "coinbase":
 			var c cbCase
 			json.Unmarshal(a.Case, &c)
@@ -560,6 +609,7 @@ func main() {
 			samples = append(samples, x)
 		}
 	}
+	nBuilt, builtAcc := judgeBuilt(r, cb.Built, cb.Classes)
 	if cb.Acc == 0 {
 		evid.Fatalf("C11 coinbase fixture: no coinbase was accepted at all")
 	}
@@ -571,10 +621,10 @@ func main() {
 		"the miner share may go to any address; in POW consensus mode the CR and DPoS shares go to the destroy address",
 		"ArbitratorsMock reports DPoS v2 active from height 2000000; the coinbase rule is driven through GetBlockDPOSReward + checkCoinbaseTransactionContext exactly as checkTxsContext combines them, with fee-carrying stub transactions; block-level acceptance through ProcessBlock is not driven here")
 	r.Finish(evid.Coverage{
-		"evaluations":         st.evals + int64(cb.N),
+		"evaluations":         st.evals + int64(cb.N) + int64(nBuilt),
 		"distinct_nontrivial": nDistinct + len(cb.Classes),
 		"rule": "(a) GetBlockReward over " + map[bool]string{true: "all 2^32 heights", false: "every halving boundary +-2, +-20000 around NewELAIssuanceHeight and HalvingRewardHeight, the first and last 20000 heights"}[all] +
-			" for mainnet, testnet, regnet: >= 0 and non-increasing after NewELAIssuanceHeight; (b) 8 heights x {dpos,pow} x fee lists x 40 coinbase vectors (canonical + every single deviation): verdict of the real coinbase rule == exact big.Rat reference. non-trivial = distinct subsidy values + distinct (mode, deviation, verdict, error) classes",
+			" for mainnet, testnet, regnet: >= 0 and non-increasing after NewELAIssuanceHeight; (b) 8 heights x {dpos,pow} x fee lists x 40 coinbase vectors (canonical + every single deviation): verdict of the real coinbase rule == exact big.Rat reference; and for every (height, mode, fee list) the coinbase built by the real pow.Service.CreateCoinbaseTx + AssignCoinbaseTxRewards equals the reference split/addresses and is accepted by the rule. non-trivial = distinct subsidy values + distinct (mode, deviation, verdict, error) classes",
 		"exhaustive":              true,
 		"all_2^32_heights":        all,
 		"subsidy_evaluations":     st.evals,
@@ -584,6 +634,8 @@ func main() {
 		"subsidy_values":          ladder,
 		"quick_windows_per_net":   windows,
 		"coinbase_verdicts":       cb.N,
+		"constructed_coinbases":   nBuilt,
+		"constructed_accepted":    builtAcc,
 		"coinbase_accepted":       cb.Acc,
 		"coinbase_classes":        cb.Classes,
 		"samples":                 samples,
